@@ -574,6 +574,33 @@ def single_column_sheet(flat, op, res):
     return True
 
 
+def packed_blank_value(flat, op):
+    """input class of finding packed-model-blank-value-under-nonblank-default (FX7): the operation is inside the
+    property's domain only because a str field of a PACKED model may hold "" (rowgen.in_domain, blank_values), and the
+    same instance with those fields filled is inside the narrower domain and round-trips on objects built afresh"""
+    import c07
+    k = op["k"]
+    if op["op"] == "round":
+        val, T = op["value"], op["targets"]
+    elif op["op"] == "parse" and op.get("of"):
+        val, T = op["of"]["value"], op["of"]["targets"]
+    elif op["op"] == "sheet" and len(op["rows"]) == 1:
+        val, T = op["rows"][0], op["targets"]
+    else:
+        return False
+    t = flat[k]
+    try:
+        if rowgen.in_domain(t, val, [], T, blank_values=False):
+            return False
+        val2 = c07.fill_packed_blanks(t, val, [], T)
+        if not rowgen.in_domain(t, val2, [], T, blank_values=False):
+            return False
+        r = fresh_exec(t, dict(op="round", k=k, value=val2, targets=T))
+        return r[0] == "ok" and c07_deep_eq(r[1], val2)
+    except Exception:
+        return False
+
+
 def minimise(decls, ops, i, share, pred):
     """drop earlier operations while step i still fails pred"""
     ops = list(ops[:i + 1])
@@ -825,6 +852,8 @@ def run_sessions(ctx, stats):
                 key = "session-roundtrip" if alone else "generic-roundtrip"
                 if not alone and single_column_sheet(flat, op, res):
                     key = "single-column-sheet-export-crashes"
+                elif not alone and packed_blank_value(flat, op):
+                    key = "packed-model-blank-value-under-nonblank-default"
                 if v.viol_by_key.get(key, 0) >= 2 or any(kf["key"] == key for kf in v.known):
                     # this class was reported twice already (or is a known finding): counted, not minimised again
                     v.failing_input(key, f"{_show_op(flat, op)} returns {res!r}", dict(fn="session", decls=j_decls(decls), ops=ops[:i + 1], share=share))
